@@ -3,7 +3,7 @@
    The Module P is Main4's development with [render] replaced by [renderP] (generated text). *)
 From Coq Require Import List NArith Bool Arith Lia.
 From CV Require Import Ast.Defs Ast.Frag Ast.Basics Ast.Ctx Ast.Stage1 Ast.Main1 Ast.Stage2 Ast.Main2 Ast.NoDecl Ast.Stage3
-                       Ast.Main3 Ast.Stage4 Ast.Stage5 Ast.Main4 Ast.Prep Ast.TopQ.
+                       Ast.Main3 Ast.Stage4 Ast.Stage5 Ast.Main4 Ast.Prep Ast.TopQ Ast.Labels.
 Import ListNotations.
 
 Lemma renderP_balanced : forall e, balanced (renderP e).
@@ -306,10 +306,9 @@ End P.
 
 Lemma parse_of_SxP : forall cpp ts ts' tr rk,
   Sx cpp ts' tr rk -> rk <= 15 -> prep (2 * length (ts ++ [semi])) (ts ++ [semi]) = ts' ++ [semi] ->
-  decl_like ts' = false ->
   parse cpp ts = Some tr.
 Proof.
-  intros cpp ts ts' tr rk H Hrk Hprep Hd.
+  intros cpp ts ts' tr rk H Hrk Hprep.
   unfold parse, parse_ctx. rewrite Hprep.
   assert (Hc : comp cpp (S (length (ts' ++ [semi]))) D_COMMA (st0 [semi], ts' ++ [semi]) =
                Some (mkafter (st0 [semi]) ts' tr, [semi])).
@@ -321,7 +320,7 @@ Proof.
     - cbn. split; [reflexivity|discriminate].
     - apply pstart_vac. reflexivity.
     - reflexivity.
-    - exact Hd.
+    - right. reflexivity.
     - intros r a Hr. apply quiet_closer; [right; right; reflexivity|lia].
     - intros _ a. apply quiet_closer; [right; right; reflexivity|lia].
     - intros _ a. apply quiet_closer; [right; right; reflexivity|lia].
@@ -334,9 +333,12 @@ Qed.
 (* every constructor except casts, prepareTernaryOpForAST included *)
 Theorem parse_render_stage6 : forall cpp e,
   frag5 e = true -> wf e = true -> labels_ok e = true ->
-  decl_like (renderP e) = false ->
   parse cpp (render e) = Some (tree_of e).
 Proof.
-  intros cpp e Hf Hw Hl Hd. destruct (P.main5 cpp e Hf Hw Hl) as [HS _].
-  apply (parse_of_SxP cpp (render e) (renderP e) _ (rank e) HS); [apply rank_le|apply prep_render|exact Hd].
+  intros cpp e Hf Hw Hl. destruct (P.main5 cpp e Hf Hw Hl) as [HS _].
+  apply (parse_of_SxP cpp (render e) (renderP e) _ (rank e) HS); [apply rank_le|apply prep_render].
 Qed.
+
+Lemma parse_render_canon6 : forall (cpp : bool) (e0 : expr), let e := canon e0 in
+  frag5 e = true -> wf e = true -> parse cpp (render e) = Some (tree_of e).
+Proof. intros cpp e0 e Hf Hw. apply parse_render_stage6; [exact Hf|exact Hw|apply labels_ok_canon]. Qed.
